@@ -68,6 +68,7 @@ pub struct Div {
 }
 
 fn div<T>(prop: &'static str, what: String) -> Result<T, Div> {
+    note_divergence(prop, &what);
     Err(Div { prop, what })
 }
 
